@@ -25,7 +25,9 @@ def rows(prefix, op):
 
 def main():
     subprocess.run(["lake", "build", "rvdriver"], cwd=os.path.join(ROOT, "lean"), check=True)
-    lines = rows("R", "SH R") + rows("L", "SH L") + rows("F", "FA")
+    lines = rows("R", "SH R") + rows("L", "SH L") + rows("F", "FA") + rows("H", "HL")
+    d = subprocess.run([DRIVER, "C16"], input="DF\n", capture_output=True, text=True, check=True).stdout.strip()
+    lines.append("D " + d)
     path = os.path.join(ROOT, "harness", "src", "c16_shapes.txt")
     with open(path, "w") as f:
         f.write("\n".join(lines) + "\n")
